@@ -656,8 +656,8 @@ func c09r4(c *core.Ctx) {
 	}
 	// member names
 	want := map[string]map[string]string{
-		"CharacteristicResponse": {"AccessoryID": "aid", "CharacteristicID": "iid", "Value": "value,omitempty", "Status": "status,omitempty"},
-		"CharacteristicRequest":  {"AccessoryID": "aid", "CharacteristicID": "iid", "Value": "value", "Events": "ev,omitempty"},
+		"CharacteristicResponse":  {"AccessoryID": "aid", "CharacteristicID": "iid", "Value": "value,omitempty", "Status": "status,omitempty"},
+		"CharacteristicRequest":   {"AccessoryID": "aid", "CharacteristicID": "iid", "Value": "value", "Events": "ev,omitempty"},
 		"CharacteristicsResponse": {"Characteristics": "characteristics"},
 	}
 	for typ, w := range want {
@@ -822,7 +822,10 @@ func c09r5(c *core.Ctx) {
 		core.Instrs(wj, func(i ssa.Instruction) {
 			if core.IsInvoke(i, "io.Writer", "Write") {
 				if call, isC := core.CallOf(i).Args[0].(*ssa.Call); isC && core.IsCall(call, "(*bytes.Buffer).Bytes") {
-					if core.AnySource(core.CallOf(i).Value, func(s ssa.Value) bool { cc, ok := s.(*ssa.Call); return ok && core.IsCall(cc, mod+"/hap.NewChunkedWriter") }) {
+					if core.AnySource(core.CallOf(i).Value, func(s ssa.Value) bool {
+						cc, ok := s.(*ssa.Call)
+						return ok && core.IsCall(cc, mod+"/hap.NewChunkedWriter")
+					}) {
 						ok = true
 					}
 				}
